@@ -12,9 +12,13 @@ CONSTANTS
     ReaderDone = TRUE
     AlertCloseOnErr = TRUE
     UdfStopAborts = FALSE
+    NWaiters = 1
+    WaitHoldsMu = TRUE
     HookNeedsTmLock = FALSE
 INVARIANTS
     TypeOK
+    WaitersAgree
+    OneShotErrCh
     NoAcceptedLoss
     AckedAllForked
     NoSilentDrop
